@@ -126,11 +126,13 @@ impl FxL {
     }
     /// the marks cover exactly container bytes [at, at+n)
     pub fn marked(&self, at: usize, n: usize) {
-        assert!(self.log.all_within(self.base.wrapping_add(at), n), "C16: dirty mark outside the bytes written");
+        // coverage first: Kani's assert! also assumes its condition, so the second check only sees
+        // executions that passed the first (marks that are both misplaced and missing fail both)
         if n > 0 {
             assert!(self.log.covers(self.base.wrapping_add(at)) && self.log.covers(self.base.wrapping_add(at + n - 1))
                 && self.log.covers(self.base.wrapping_add(at + n / 2)), "C05: written bytes not reported dirty");
         }
+        assert!(self.log.all_within(self.base.wrapping_add(at), n), "C16: dirty mark outside the bytes written");
     }
     pub fn unmarked(&self) {
         assert!(self.log.nothing_marked(), "C16,C18: a read / rejected / empty operation marked something dirty");
@@ -523,6 +525,44 @@ pub fn copy_to_volatile_slice_log() {
         }
     }
     let n = min(al, bl);
+    if n == 0 { fx.unmarked(); } else { fx.marked(b, n); }
+}
+
+// the same through an array of WIDER elements: the copy is bounded by the array's size in BYTES (not elements)
+#[kani::proof]
+#[kani::unwind(22)]
+pub fn wide_array_copy_to_volatile_slice_mem() {
+    let mut fx = FxM::new();
+    let (a, ne, b, bl): (usize, usize, usize, usize) = (kani::any(), kani::any(), kani::any(), kani::any());
+    let (o, size) = (fx.o, fx.size);
+    kani::assume(a <= size && ne <= (size - a) / 2 && b <= size && bl <= size - b);
+    {
+        let s = fx.slice();
+        if let (Ok(src), Ok(dst)) = (s.get_array_ref::<u16>(a, ne), s.subslice(b, bl)) {
+            src.copy_to_volatile_slice(dst);
+        } else { assert!(false, "C01,C04: array / subslice that fits was refused"); }
+    }
+    let n = min(ne * 2, bl);
+    kani::cover!(ne == 3 && bl == 6);
+    let mut srcb = [0u8; N];
+    let mut i = 0;
+    while i < N { if i < n { srcb[i] = fx.pre[o + a + i]; } i += 1; }
+    fx.wrote(b, n, &srcb);
+}
+#[kani::proof]
+#[kani::unwind(22)]
+pub fn wide_array_copy_to_volatile_slice_log() {
+    let mut fx = FxL::new();
+    let (a, ne, b, bl): (usize, usize, usize, usize) = (kani::any(), kani::any(), kani::any(), kani::any());
+    let size = fx.size;
+    kani::assume(a <= size && ne <= (size - a) / 2 && b <= size && bl <= size - b);
+    {
+        let s = fx.slice();
+        if let (Ok(src), Ok(dst)) = (s.get_array_ref::<u16>(a, ne), s.subslice(b, bl)) {
+            src.copy_to_volatile_slice(dst);
+        }
+    }
+    let n = min(ne * 2, bl);
     if n == 0 { fx.unmarked(); } else { fx.marked(b, n); }
 }
 
